@@ -466,6 +466,10 @@ class PoolRun:
                 self.ev("resume", id=tid, out=out)
                 if out == "again":
                     continue
+                if out == "retexc":         # a task whose RESULT is an exception object (returned, not raised)
+                    self.ev("fin", id=tid, how="ret")
+                    self.point("fin:%d" % tid)
+                    return Boom("value-%d" % tid)
                 self.ev("fin", id=tid, how=out)
                 self.point("fin:%d" % tid)
                 if out == "ret":
